@@ -503,7 +503,8 @@ Section MoveStar.
     Inv2 s -> frames s = fr :: rest -> f_todo fr = op :: todo ->
     exec_op s (with_todo todo fr) op = (s1, fr1, en) ->
     f_mod fr = R -> is_desig op = true ->
-    en = None /\ Inv2 (set_frames s1 (fr1 :: rest)).
+    en = None /\ Inv2 (set_frames s1 (fr1 :: rest)) /\
+    (forall o ob, o <> Rm -> o <> Dm -> objs s o = Some ob -> exists ob', objs s1 o = Some ob' /\ o_alias ob' = o_alias ob).
   Proof.
     intros H Hf Ht He Hm Hd. set (s2 := set_frames s1 (fr1 :: rest)).
     pose proof (Inv2_ctl _ s H) as HC. pose proof (Ctl_op p s fr rest op todo s1 fr1 en HC Hf He) as HC2. fold s2 in HC2.
@@ -632,6 +633,9 @@ Section MoveStar.
     { unfold dpendb, s2. cbn [set_frames unproc frames existsb]. destruct Hctl as (_ & -> & _).
       rewrite (proj2 (memN_false R (unproc s)) HRu), Hfm, Hft, Htodo, andb_false_r.
       rewrite (existsb_rest_false s fr rest HC Hf Hm). reflexivity. }
+    split.
+    2:{ intros o ob HoR HoD Ho. assert (Ea0 : objs sa o = Some ob) by (rewrite (Oa o HoR); exact Ho).
+        destruct (Mb o ob Ea0) as (ob' & Eb & _ & _ & Hal). exists ob'. split; [rewrite (Oc o HoR); exact Eb|exact (Hal HoD)]. }
     constructor.
     - intros E. rewrite Hph in E. discriminate.
     - intros _. split; [exact HIA|]. split; [exact HaD|]. split.
@@ -658,7 +662,7 @@ Section MoveStar.
     - apply Inv2_finish; assumption.
     - destruct (N.eqb (f_mod fr) R && is_desig op) eqn:Ed.
       + apply andb_true_iff in Ed. destruct Ed as [Em Ed]. apply N.eqb_eq in Em.
-        destruct (Inv2_desig s fr rest op todo s1 fr1 en H Hf Ht He Em Ed) as (-> & H2). cbn [ensure] in Hen.
+        destruct (Inv2_desig s fr rest op todo s1 fr1 en H Hf Ht He Em Ed) as (-> & H2 & _). cbn [ensure] in Hen.
         inversion Hen; subst s'. exact H2.
       + destruct (Inv2_other s fr rest op todo s1 fr1 en H Hf Ht He Ed) as [H2 HnD].
         rewrite ensure_alt in Hen. destruct (ensure_target (set_frames s1 (fr1 :: rest)) en) as [m|] eqn:Et.
@@ -767,6 +771,213 @@ Section MoveStar.
       apply nget_In in Hg. apply in_map_iff. exists (n, x). auto.
     - unfold alias_view. rewrite HgD, Ed. exact Ea.
   Qed.
+  (* ---- a consumer module C (neither R nor D) without star imports / assignment aliases: its alias map follows its
+          import statements, whatever the schedule and whenever the move happens ---- *)
+  Section Consumer.
+    Variables (C : N) (miC : modinfo).
+    Hypothesis HC_mod : modinfo_of p C = Some miC.
+    Hypothesis HC_R : C <> R.
+    Hypothesis HC_D : C <> D.
+    Hypothesis HC_plain : forall st, In st (m_stmts miC) -> plain_stmt st = true.
+    Notation Cm := (C, 0, 0).
+
+    Definition CAInv (s : state) : Prop :=
+      exists cb, objs s Cm = Some cb /\
+        (In C (unproc s) -> o_alias cb = []) /\
+        (forall fr, In fr (frames s) -> f_mod fr = C ->
+           exists pre, expand_stmts (m_stmts miC) = pre ++ f_todo fr /\ (f_modname fr, o_alias cb) = alias_ops p C pre) /\
+        (~ In C (unproc s) -> (forall fr, In fr (frames s) -> f_mod fr <> C) -> o_alias cb = static_alias p C).
+
+    Lemma CA_begin ex s m s' : Inv2x ex s -> CAInv s -> begin_module p s m = Next s' -> CAInv s'.
+    Proof.
+      intros H (cb & Ecb & Hu & Hfc & Hd) Hb.
+      destruct (begin_module_ctl p _ _ _ Hb) as (mi & Hmi & Hmst & Hin & Hun & Hfr & _).
+      assert (Hnd : NoDup (unproc s)) by apply (c_nodup p s (Inv2_ctl _ s H)).
+      assert (Hobj : exists cb', objs s' Cm = Some cb' /\ o_alias cb' = o_alias cb).
+      { destruct (begin_module_inv p _ _ _ Hb) as (mi' & _ & _ & _ & Hs'). rewrite Hs'. cbn [set_frames objs].
+        match goal with |- context [upd_obj ?s0 ?o ?f] => set (s0' := s0); set (f' := f) end.
+        assert (E0 : objs s0' Cm = Some cb) by exact Ecb.
+        destruct (N.eq_dec C m) as [E|Hne].
+        - subst m. rewrite (upd_obj_some s0' _ f' cb E0), objs_set_obj_same. eexists. split; reflexivity.
+        - assert (Hne' : Cm <> (m, 0, 0)) by (intros E; inversion E; congruence).
+          destruct (objs s0' (m, 0, 0)) as [mb|] eqn:E1.
+          + rewrite (upd_obj_some s0' _ f' mb E1), objs_set_obj_other by exact Hne'. exists cb. split; [exact E0|reflexivity].
+          + rewrite (upd_obj_none s0' _ f' E1). exists cb. split; [exact E0|reflexivity]. }
+      destruct Hobj as (cb' & Ecb' & A). exists cb'. split; [exact Ecb'|]. rewrite A, Hun, Hfr. split; [|split].
+      - intros Hx. apply (remove1_In_iff m (unproc s) C Hnd) in Hx. apply Hu. tauto.
+      - intros fr [<-|Hinf] Hm2; cbn [f_mod f_todo f_modname] in *.
+        + subst m. rewrite HC_mod in Hmi. inversion Hmi; subst mi. exists []. split; [reflexivity|]. rewrite (Hu Hin). reflexivity.
+        + apply Hfc; assumption.
+      - intros Hnu Hnf. assert (Hne : C <> m) by (intros ->; apply (Hnf _ (or_introl eq_refl)); reflexivity).
+        apply Hd; [intros Hx; apply Hnu; apply (remove1_In_iff m (unproc s) C Hnd); tauto|].
+        intros fr Hinf. apply Hnf. right. exact Hinf.
+    Qed.
+
+    Lemma CA_finish s fr rest :
+      CAInv s -> frames s = fr :: rest -> f_todo fr = [] -> CAInv (set_frames (set_mst s (f_mod fr) PROCESSED) rest).
+    Proof.
+      intros (cb & Ecb & Hu & Hfc & Hd) Hf Ht. exists cb. split; [exact Ecb|]. cbn [set_frames set_mst unproc frames].
+      split; [exact Hu|]. split.
+      - intros fr0 Hin. apply Hfc. rewrite Hf. right. exact Hin.
+      - intros Hnu Hnf. destruct (N.eq_dec (f_mod fr) C) as [E|E].
+        + destruct (Hfc fr ltac:(rewrite Hf; left; reflexivity) E) as (pre & He & Ha). rewrite Ht, app_nil_r in He.
+          unfold static_alias. rewrite HC_mod, He, <- Ha. reflexivity.
+        + apply Hd; [exact Hnu|]. intros fr0 Hin. rewrite Hf in Hin. destruct Hin as [<-|Hin]; [exact E|apply Hnf; exact Hin].
+    Qed.
+
+    Lemma plainC_ops op : In op (expand_stmts (m_stmts miC)) -> op <> MImportAll /\ (forall i t v, op <> MStmt i (SAlias t v)).
+    Proof.
+      intros Hin. split.
+      - intros ->. destruct (In_expand_from_ImportAll _ _ Hin) as (lv & m' & Hst). pose proof (HC_plain _ Hst) as Hp. discriminate.
+      - intros i t v ->. unfold expand_stmts in Hin. apply In_expand_from_MStmt in Hin. destruct Hin as (k & Hn & _ & _).
+        apply nth_error_In in Hn. pose proof (HC_plain _ Hn) as Hp. discriminate.
+    Qed.
+
+    Lemma modA_par m : parA (m, 0, 0) = sparent p (m, 0, 0).
+    Proof. unfold par1. rewrite (oid_eqb_neq (m, 0, 0) x); [reflexivity|]. intros E. inversion E. congruence. Qed.
+    Lemma modA_key m : keyA (m, 0, 0) = skey p (m, 0, 0).
+    Proof. apply (key1_nonsub p R D ix n Hix). intros [_ E]. cbn in E. congruence. Qed.
+
+    (* the alias map of C after an operation that does not move x *)
+    Lemma CA_step_frames s fr rest s1 fr1 cb1 :
+      CAInv s -> Ctl p s -> frames s = fr :: rest -> unproc s1 = unproc s -> f_mod fr1 = f_mod fr -> f_mod fr <> C ->
+      objs s1 Cm = Some cb1 -> (forall cb, objs s Cm = Some cb -> o_alias cb1 = o_alias cb) ->
+      CAInv (set_frames s1 (fr1 :: rest)).
+    Proof.
+      intros (cb & Ecb & Hu & Hfc & Hd) HC Hf Hun Hfm NC E1 A. exists cb1. split; [exact E1|]. rewrite (A cb Ecb).
+      cbn [set_frames unproc frames]. rewrite Hun. split; [exact Hu|]. split.
+      - intros fr0 [<-|Hin] Hm0; [congruence|]. apply Hfc; [rewrite Hf; right; exact Hin|exact Hm0].
+      - intros Hnu Hnf. apply Hd; [exact Hnu|]. intros fr0. rewrite Hf. intros [<-|Hin]; [exact NC|apply Hnf; right; exact Hin].
+    Qed.
+
+    Lemma CA_other s fr rest op todo s1 fr1 en :
+      Inv2 s -> CAInv s -> frames s = fr :: rest -> f_todo fr = op :: todo ->
+      exec_op s (with_todo todo fr) op = (s1, fr1, en) ->
+      N.eqb (f_mod fr) R && is_desig op = false ->
+      CAInv (set_frames s1 (fr1 :: rest)).
+    Proof.
+      intros H HCA Hf Ht He Hnd. pose proof (Inv2_ctl _ s H) as HC.
+      pose proof (ctl_exec_op s (with_todo todo fr) op) as Hctl. pose proof (exec_op_frame s (with_todo todo fr) op) as Hfr.
+      rewrite He in Hctl, Hfr. cbn [fst snd] in Hctl, Hfr. destruct Hfr as (Hfm & Hft). cbn [with_todo f_mod f_todo] in Hfm, Hft.
+      destruct (Inv2_suffix _ s fr H ltac:(rewrite Hf; left; reflexivity)) as (mi & pre & Hmi & Hexp). rewrite Ht in Hexp.
+      assert (Hop_name : forall o a mi', op = MImportName o a -> modinfo_of p (f_mod fr) = Some mi' -> ~ In a (exports_of_mod mi')).
+      { intros o a mi' Hop Hmi'. rewrite Hmi in Hmi'. inversion Hmi'; subst mi'.
+        assert (Hx : In (MImportName o a) (expand_stmts (m_stmts mi))) by (rewrite Hexp, Hop; apply in_or_app; right; left; reflexivity).
+        destruct (In_expand_from_ImportName _ _ _ _ Hx) as (lv & m' & nms & Hst & Hoa).
+        exact (Honly _ mi _ Hmi Hst (o, a) Hoa). }
+      assert (Hop_all : forall mi', op = MImportAll -> modinfo_of p (f_mod fr) = Some mi' -> exports_of_mod mi' = []).
+      { intros mi' Hop Hmi'. rewrite Hmi in Hmi'. inversion Hmi'; subst mi'.
+        assert (Hx : In MImportAll (expand_stmts (m_stmts mi))) by (rewrite Hexp, Hop; apply in_or_app; right; left; reflexivity).
+        destruct (In_expand_from_ImportAll _ _ Hx) as (lv & m' & Hst). destruct (Honly _ mi _ Hmi Hst) as [E|E]; [exact E|].
+        exfalso. rewrite E, N.eqb_refl, Hop in Hnd. discriminate. }
+      assert (Hun : unproc s1 = unproc s) by (destruct Hctl as (_ & Hx & _); exact Hx).
+      destruct (N.eq_dec (f_mod fr) C) as [EC|NC].
+      - (* an operation of the consumer itself *)
+        destruct HCA as (cb & Ecb & Hu & Hfc & Hd).
+        assert (HmiC : modinfo_of p (f_mod fr) = Some miC) by (rewrite EC; exact HC_mod).
+        rewrite Hmi in HmiC. inversion HmiC; subst mi.
+        assert (Hin : In op (expand_stmts (m_stmts miC))) by (rewrite Hexp; apply in_or_app; right; left; reflexivity).
+        destruct (plainC_ops op Hin) as [Hns Hna].
+        assert (Ecb' : objs s (f_mod fr, 0, 0) = Some cb) by (rewrite EC; exact Ecb).
+        assert (Hon : forall o a, op = MImportName o a -> ~ In a (exports_of_mod miC)) by (intros o a Ho; exact (Hop_name o a miC Ho Hmi)).
+        assert (Hstep : exists mb1, objs s1 (f_mod fr, 0, 0) = Some mb1 /\
+                                    (f_modname fr1, o_alias mb1) = alias_op p (f_mod fr) (f_modname fr, o_alias cb) op).
+        { destruct (dpendb s) eqn:Eph.
+          - exact (op_alias_step p nm0 par0 GoodT (fun _ => eq_refl) (fun _ => eq_refl) s fr rest op todo s1 fr1 en miC cb
+                                 (i2_p0 _ s H Eph) Hf Ht He Hmi Ecb' Hon Hns Hna).
+          - destruct (i2_p1 _ s H Eph) as (HI & _).
+            exact (op_alias_step p nmA parA Good1 modA_par modA_key s fr rest op todo s1 fr1 en miC cb HI Hf Ht He Hmi Ecb' Hon Hns Hna). }
+        destruct Hstep as (mb1 & E1 & A1). rewrite EC in E1, A1. exists mb1. split; [exact E1|].
+        cbn [set_frames unproc frames]. rewrite Hun.
+        assert (HnuC : ~ In C (unproc s)).
+        { intros Hx. destruct (c_frames p s HC fr) as [A _]; [rewrite Hf; left; reflexivity|].
+          apply (c_unproc p s HC) in Hx. destruct Hx as [_ B]. rewrite EC in A. contradiction. }
+        split; [intros Hx; contradiction|]. split.
+        + intros fr0 [<-|Hin0] Hm0.
+          * destruct (Hfc fr ltac:(rewrite Hf; left; reflexivity) EC) as (pre0 & He0 & Ha0). rewrite Ht in He0.
+            exists (pre0 ++ [op]). split; [rewrite Hft, <- app_assoc; exact He0|]. rewrite alias_ops_snoc, <- Ha0. exact A1.
+          * exfalso. pose proof (c_fnodup p s HC) as Hn. rewrite Hf in Hn. cbn [map] in Hn. apply NoDup_cons_iff in Hn.
+            destruct Hn as [Hni _]. apply Hni. rewrite EC, <- Hm0. apply in_map. exact Hin0.
+        + intros _ Hnf. exfalso. apply (Hnf fr1 (or_introl eq_refl)). congruence.
+      - (* an operation of another module *)
+        assert (M : meta_weak (f_mod fr, 0, 0) s s1).
+        { destruct (dpendb s) eqn:Eph.
+          - exact (proj2 (proj2 (op_triple p nm0 par0 H0 GoodT (static0 p) s fr rest op todo s1 fr1 en (i2_p0 _ s H Eph) Hf Ht He Hop_name Hop_all))).
+          - destruct (i2_p1 _ s H Eph) as (HI & _).
+            exact (proj2 (proj2 (op_triple p nmA parA H1 Good1 staticA s fr rest op todo s1 fr1 en HI Hf Ht He Hop_name Hop_all))). }
+        pose proof HCA as (cb & Ecb & _). destruct (M Cm cb Ecb) as (cb1 & E1 & _ & _ & Hal).
+        apply (CA_step_frames s fr rest s1 fr1 cb1 HCA HC Hf Hun Hfm NC E1).
+        intros cb0 E0. rewrite Ecb in E0. inversion E0; subst cb0. apply Hal. intros E. inversion E. congruence.
+    Qed.
+
+    Lemma CA_step s s' : Inv2 s -> CAInv s -> step p s = Next s' -> CAInv s'.
+    Proof.
+      intros H HCA Hs. pose proof (Inv2_ctl _ s H) as HC.
+      destruct (step_cases p _ _ Hs) as [(Hf & m & rest & Hu & Hb)|[(fr & rest & Hf & Ht & ->)|
+        (fr & rest & op & todo & s1 & fr1 & en & Hf & Ht & He & Hen)]].
+      - exact (CA_begin _ s m s' H HCA Hb).
+      - apply CA_finish; assumption.
+      - destruct (N.eqb (f_mod fr) R && is_desig op) eqn:Ed.
+        + apply andb_true_iff in Ed. destruct Ed as [Em Ed]. apply N.eqb_eq in Em.
+          destruct (Inv2_desig s fr rest op todo s1 fr1 en H Hf Ht He Em Ed) as (-> & H2 & M). cbn [ensure] in Hen.
+          inversion Hen; subst s'.
+          pose proof (ctl_exec_op s (with_todo todo fr) op) as Hctl. pose proof (exec_op_frame s (with_todo todo fr) op) as Hfr.
+          rewrite He in Hctl, Hfr. cbn [fst snd] in Hctl, Hfr. destruct Hfr as (Hfm & _). cbn [with_todo f_mod] in Hfm.
+          pose proof HCA as (cb & Ecb & _).
+          destruct (M Cm cb ltac:(intros E; inversion E; congruence) ltac:(intros E; inversion E; congruence) Ecb) as (cb1 & E1 & Hal).
+          apply (CA_step_frames s fr rest s1 fr1 cb1 HCA HC Hf); [destruct Hctl as (_ & Hx & _); exact Hx|exact Hfm|congruence|exact E1|].
+          intros cb0 E0. rewrite Ecb in E0. inversion E0; subst cb0. exact Hal.
+        + pose proof (CA_other s fr rest op todo s1 fr1 en H HCA Hf Ht He Ed) as HCA2.
+          destruct (Inv2_other s fr rest op todo s1 fr1 en H Hf Ht He Ed) as [H2 _].
+          rewrite ensure_alt in Hen. destruct (ensure_target (set_frames s1 (fr1 :: rest)) en) as [m|] eqn:Et.
+          * exact (CA_begin _ _ m s' H2 HCA2 Hen).
+          * inversion Hen; subst s'. exact HCA2.
+    Qed.
+
+    Lemma CA_init sigma : Permutation sigma (module_ids p) -> CAInv (init_state p sigma).
+    Proof.
+      intros Hperm. pose proof (Inv_init p H0 Hwf sigma Hperm) as HI. pose proof (i_oa p _ _ _ _ HI) as HA.
+      pose proof (created_module p (init_state p sigma) C miC HC_mod) as CC.
+      destruct (objs (init_state p sigma) Cm) as [cb|] eqn:Ecb; [|exfalso; apply (oa_exists _ _ _ _ _ HA) in CC; congruence].
+      assert (Hfr : frames (init_state p sigma) = []).
+      { unfold init_state. cbn [set_unproc frames]. rewrite frames_add_modules. reflexivity. }
+      exists cb. split; [exact Ecb|]. rewrite Hfr. split; [|split].
+      - intros _.
+        assert (Hnil : alias_nil_on (fun _ => True) (init_state p sigma)).
+        { unfold init_state. eapply anil_objs; [reflexivity|]. apply anil_add_modules. intros x0 xb _ Hx. discriminate. }
+        exact (Hnil Cm cb I Ecb).
+      - intros fr [].
+      - intros Hnu. exfalso. apply Hnu. unfold init_state. cbn [set_unproc unproc].
+        eapply Permutation_in; [apply Permutation_sym; exact Hperm|]. apply module_ids_In. rewrite HC_mod. discriminate.
+    Qed.
+
+    Lemma run_machine_okC fuel : forall s,
+      Inv2 s -> CAInv s -> (mu p s < fuel)%nat ->
+      exists s', run_machine p fuel s = Ok s' /\ Inv2 s' /\ CAInv s' /\ frames s' = [] /\ unproc s' = [].
+    Proof.
+      induction fuel as [|f IH]; intros s HI HCA Hlt; [lia|]. cbn [run_machine].
+      destruct (step p s) as [s1| |k] eqn:Es.
+      - apply IH; [eapply Inv2_step; eassumption|eapply CA_step; eassumption|]. pose proof (step_mu p _ _ Es). lia.
+      - exists s. destruct (step_halt p s Es). auto.
+      - exfalso. exact (step_not_stuck p s k (Inv2_ctl _ s HI) (Inv2_modules_valid s HI) Es).
+    Qed.
+
+    (* the final state: the moved registry AND the alias map of the consumer *)
+    Theorem moved_final_star sigma :
+      Permutation sigma (module_ids p) ->
+      exists s, run_state p sigma = Ok s /\ InvA s /\ frames s = [] /\ unproc s = [] /\ aliasD s /\
+                exists cb, objs s Cm = Some cb /\ o_alias cb = static_alias p C.
+    Proof.
+      intros Hperm. unfold run_state.
+      destruct (run_machine_okC (run_fuel p) (init_state p sigma) (Inv2_init sigma Hperm) (CA_init sigma Hperm) (init_mu p sigma Hperm))
+        as (s & Hrun & H2 & (cb & Ecb & _ & _ & Hd) & Hfr & Hun).
+      exists s. split; [exact Hrun|].
+      assert (Hph : dpendb s = false) by (unfold dpendb; rewrite Hfr, Hun; reflexivity).
+      destruct (i2_p1 _ s H2 Hph) as (HI & HaD & _).
+      split; [exact HI|]. split; [exact Hfr|]. split; [exact Hun|]. split; [exact HaD|].
+      exists cb. split; [exact Ecb|]. apply Hd; [rewrite Hun; intros []|rewrite Hfr; intros fr []].
+    Qed.
+  End Consumer.
 End MoveStar.
 
 (* ---- a boolean check of "nothing but the star import of R re-exports" ---- *)
